@@ -3338,9 +3338,12 @@ class PyCdlib:
             if self.udf_root is None:
                 raise pycdlibexception.PyCdlibInvalidInput('Can only specify a UDF path for a UDF ISO')
             udf_path_bytes = utils.normpath(udf_path)
-            (name_unused, udf_parent) = self._udf_name_and_parent_from_path(udf_path_bytes)
+            (udf_name, udf_parent) = self._udf_name_and_parent_from_path(udf_path_bytes)
             if udf_parent is None or not udf_parent.is_dir():
                 raise pycdlibexception.PyCdlibInvalidInput('Can only add a UDF File Identifier to a directory')
+            # A name that does not fit into a File Identifier is refused when
+            # the descriptor is made; find that out now.
+            udfmod.UDFFileIdentifierDescriptor().new(False, False, udf_name, udf_parent)
             try:
                 self._find_udf_record(udf_path_bytes)
             except pycdlibexception.PyCdlibInvalidInput:
